@@ -14,3 +14,9 @@
         &&& self.function_calls == o.function_calls &&& self.channels == o.channels
     }
 
+    // (strong form, between two requests) every bus listener belongs to a connected client
+    spec fn bl_owners_connected(&self) -> bool {
+        forall|c: BusListenerCookie| #![trigger self.bus_listeners@[c]] self.bus_listeners@.contains_key(c) ==>
+            self.conns@.contains_key(self.bus_listeners@[c].conn_id)
+    }
+
